@@ -102,6 +102,10 @@ pub fn explore<M: Machine>(name: &str, ops: &[M::Op], depth: usize, rep: &mut Re
     std::thread::scope(|s| {
         for _ in 0..nthreads {
             s.spawn(|| {
+                // each explorer thread owns a one-worker rayon pool and runs inside it, so that
+                // parallel-iterator reads of the checked structures execute inline and deterministically
+                let pool = rayon::ThreadPoolBuilder::new().num_threads(1).build().unwrap();
+                pool.install(|| {
                 let mut sink = Sink::default();
                 loop {
                     let i = next.fetch_add(1, std::sync::atomic::Ordering::SeqCst);
@@ -127,6 +131,7 @@ pub fn explore<M: Machine>(name: &str, ops: &[M::Op], depth: usize, rep: &mut Re
                 t.violations.extend(sink.violations);
                 for o in sink.outcomes { if t.outcomes.len() < 1_000_000 { t.outcomes.insert(o); } }
                 t.samples.extend(sink.samples);
+                });
             });
         }
     });
